@@ -33,7 +33,7 @@ R.pred("InitOK", [("c", SetT(BITS))], [
 ])
 
 R.pred("WF", [("o", O)], [
-    ("range", "0 <= o.preserve_suffix and o.preserve_suffix <= o.length"),
+    ("range", "0 <= o.preserve_suffix and o.preserve_suffix <= o.length and o.length >= 1"),
     ("fmt", "o.fmt == binfmt(o.length)"),
     ("init", "InitOK(o.c0)"),
     ("seed", "all(k in o.cache and o.cache[k] == k for k in o.c0)"),
@@ -51,6 +51,48 @@ R.lemma("LA_len", [("o", O), ("a", BITS)], [], ["len(A(o, a)) == len(a)"],
 R.lemma("LA_inj", [("o", O), ("a", BITS), ("b", BITS)], ["A(o, a) == A(o, b)"], ["a == b"],
         induct="len(a)", triggers=[["A(o, a)", "A(o, b)"]])
 
+R.lemma("LD_len", [("o", O), ("t", BITS)], [], ["len(D(o, t)) == len(t)"],
+        induct="len(t)", triggers=[["D(o, t)"]])
+R.lemma("LAD", [("o", O), ("t", BITS)], [], ["A(o, D(o, t)) == t"],
+        induct="len(t)", triggers=[["D(o, t)"]])
+R.lemma("LDA", [("o", O), ("a", BITS)], [], ["D(o, A(o, a)) == a"],
+        induct="len(a)", triggers=[["A(o, a)"]])
+
+R.lemma("LG_len", [("o", O), ("m", INT), ("a", BITS)], ["0 <= m"], ["len(G(o, m, a)) == len(a)"], triggers=[])
+R.lemma("LG_inj", [("o", O), ("m", INT), ("a", BITS), ("b", BITS)],
+        ["0 <= m", "G(o, m, a) == G(o, m, b)"], ["a == b"], triggers=[])
+
+R.lemma("LA_prefix", [("o", O), ("b", BITS), ("j", INT)], ["0 <= j", "j <= len(b)"],
+        ["A(o, b)[:j] == A(o, b[:j])"], induct="len(b)", triggers=[],
+        proof=["use LA_prefix(o, b[:-1], j)", "inst A(o, b[:j])"])
+
+# property-level theorems (C01): common-prefix length is preserved exactly
+# small facts about slices of bit strings (proved, not assumed) used as stepping stones
+R.lemma("S_take_app1", [("x", BITS), ("y", BITS), ("n", INT)], ["0 <= n", "n <= len(x)"],
+        ["(x + y)[:n] == x[:n]"], triggers=[])
+R.lemma("S_take_app2", [("x", BITS), ("y", BITS), ("n", INT)], ["n >= len(x)"],
+        ["(x + y)[:n] == x + y[:n - len(x)]"], triggers=[])
+R.lemma("S_take_take", [("x", BITS), ("m", INT), ("n", INT)], ["0 <= n", "n <= m"],
+        ["x[:m][:n] == x[:n]"], triggers=[])
+R.lemma("S_take_drop", [("x", BITS), ("m", INT), ("n", INT)], ["0 <= m", "m <= n", "n <= len(x)"],
+        ["x[:n][m:] == x[m:][:n - m]", "x[:n][:m] == x[:m]"], triggers=[])
+
+R.lemma("LG_prefix", [("o", O), ("m", INT), ("a", BITS), ("n", INT)],
+        ["0 <= m", "m <= len(a)", "0 <= n", "n <= len(a)"],
+        ["G(o, m, a)[:n] == G(o, m, a[:n])"], triggers=[],
+        proof=["case n <= m and m < len(a)", "case n <= m and m == len(a)", "case n > m",
+               "use LA_prefix(o, a, n)", "use LA_prefix(o, a[:m], n)", "inst A(o, a[:n])",
+               "use S_take_app1(A(o, a[:m]), a[m:], n)", "use S_take_app2(A(o, a[:m]), a[m:], n)",
+               "use S_take_take(a, m, n)", "use S_take_drop(a, m, n)"])
+R.lemma("T_cpl", [("o", O), ("m", INT), ("L", INT), ("a", BITS), ("b", BITS), ("n", INT)],
+        ["0 <= m", "m <= L", "len(a) == L", "len(b) == L", "0 <= n", "n <= L"],
+        ["(a[:n] == b[:n]) == (G(o, m, a)[:n] == G(o, m, b)[:n])"], triggers=[],
+        proof=["use LG_prefix(o, m, a, n)", "use LG_prefix(o, m, b, n)", "use LG_inj(o, m, a[:n], b[:n])"])
+R.lemma("T_perm", [("o", O), ("m", INT), ("L", INT), ("x", BITS)],
+        ["0 <= m", "m <= L", "len(x) == L"],
+        ["Ginv(o, m, G(o, m, x)) == x", "G(o, m, Ginv(o, m, x)) == x",
+         "len(G(o, m, x)) == L", "len(Ginv(o, m, x)) == L"], triggers=[])
+
 # ---------------------------------------------------------------- function contracts
 R.contract(M + "_generate_bit_from_hash",
            types={"salt": STR, "string": STR}, returns=INT,
@@ -66,3 +108,65 @@ R.contract(M + "_BaseIpAnonymizer._anonymize_bits",
                     "WF(self)",
                     "Extends(old(self.cache), self.cache)",
                     "bits in self.cache"])
+
+R.contract(M + "_BaseIpAnonymizer.anonymize",
+           types={"self": O, "ip_int": INT}, returns=INT,
+           requires=["WF(self)", "0 <= ip_int and ip_int < pow2(self.length)"],
+           modifies=["self.cache"],
+           hint_terms=["A(self, B(ip_int, self.length))"],
+           use_lemmas={"bidict_put": [
+               "LG_inj(self, self.length - self.preserve_suffix, "
+               "inv(self.cache)[G(self, self.length - self.preserve_suffix, B(ip_int, self.length))], "
+               "B(ip_int, self.length))"]},
+           ensures=["B(result, self.length) == G(self, self.length - self.preserve_suffix, B(ip_int, self.length))",
+                    "0 <= result and result < pow2(self.length)",
+                    "WF(self)",
+                    "Extends(old(self.cache), self.cache)",
+                    "B(ip_int, self.length) in self.cache"])
+
+R.contract(M + "_BaseIpAnonymizer._deanonymize_bits",
+           types={"self": O, "bits": BITS}, returns=BITS,
+           requires=["WF(self)", "len(bits) <= self.length - self.preserve_suffix"],
+           decreases="len(bits)",
+           modifies=["self.cache"],
+           hint_terms=["D(self, bits)", "A(self, D(self, bits[:-1]) + '0')", "A(self, D(self, bits[:-1]) + '1')"],
+           ensures=["result == D(self, bits)",
+                    "WF(self)",
+                    "Extends(old(self.cache), self.cache)"])
+
+R.contract(M + "_BaseIpAnonymizer.deanonymize",
+           types={"self": O, "ip_int": INT}, returns=INT,
+           requires=["WF(self)", "0 <= ip_int and ip_int < pow2(self.length)"],
+           modifies=["self.cache"],
+           ensures=["B(result, self.length) == Ginv(self, self.length - self.preserve_suffix, B(ip_int, self.length))",
+                    "0 <= result and result < pow2(self.length)",
+                    "WF(self)",
+                    "Extends(old(self.cache), self.cache)"])
+
+R.objtype("Ip6", pyclass=M + "IpV6Anonymizer", base="BaseIp")
+
+KW = {"preserve_suffix": Opt(INT), "salter": Opq("Salter")}
+
+R.contract(M + "_BaseIpAnonymizer.__init__",
+           types={"self": O, "salt": STR, "length": INT, "salter": Opq("Salter"), "preserve_suffix": Opt(INT)},
+           requires=["length >= 1",
+                     "implies(preserve_suffix is not None, 0 <= preserve_suffix and preserve_suffix <= length)"],
+           modifies=["self"],
+           ghost_exit={"self.c0": "dom(self.cache)"},
+           ensures=["self.salt == salt", "self.length == length", "self.salter == salter",
+                    "self.preserve_suffix == (0 if preserve_suffix is None else preserve_suffix)",
+                    "self.fmt == binfmt(length)",
+                    "'' in self.cache and self.cache[''] == ''",
+                    "all(k == '' for k in self.cache)",
+                    "all(k == '' for k in self.c0)",
+                    "WF(self)"])
+
+R.contract(M + "IpV6Anonymizer.__init__",
+           types={"self": ObjT("Ip6"), "salt": STR, "kwargs": KW},
+           requires=["implies(kwargs['preserve_suffix'] is not None, "
+                     "0 <= kwargs['preserve_suffix'] and kwargs['preserve_suffix'] <= 128)"],
+           modifies=["self"],
+           ensures=["self.salt == salt", "self.length == 128", "self.salter == kwargs['salter']",
+                    "self.preserve_suffix == (0 if kwargs['preserve_suffix'] is None else kwargs['preserve_suffix'])",
+                    "all(k == '' for k in self.c0)",
+                    "WF(self)"])
